@@ -2,7 +2,10 @@
 //! verif <id> --tier quick|thorough [--root /verif]   |   verif replay <file>
 mod common;
 mod explore;
+mod p_adsr;
+mod p_c17;
 mod p_clamp;
+mod p_glide;
 mod p_lfo;
 mod p_midi;
 mod sr;
@@ -80,6 +83,12 @@ fn run(ctx: &Ctx) -> i32 {
         "C18" => (p_midi::c18(ctx), "all controller numbers x values x channels and all pitch-bend values on the real receiver against the routing table, plus BFS to fixpoint over controller histories"),
         "C15" => (p_ribbon::c15(ctx), "BFS to fixpoint over sample / edge-poll histories of the real ribbon controller at six buffer capacities against a run-length reference model"),
         "C16" => (p_ribbon::c16(ctx), "BFS over multi-level sample histories of the real ribbon controller with reference-mean, differential (fresh controller) and monotonicity oracles on every pressed state"),
+        "C01" => (p_adsr::c01(ctx), "complete phase walks (all 2^24 positions per phase in the thorough tier) and bounded-depth BFS over event histories of the real envelope with range / end-level / monotonicity / curve oracles on every tick"),
+        "C02" => (p_adsr::c02(ctx), "every integer sample rate x a time menu run to completion on the real envelope against the duration bounds, plus bounded-depth BFS over event histories against a five-state reference machine"),
+        "C03" => (p_adsr::c03(ctx), "the same walks and histories as C01 with the per-tick slope bound evaluated on every adjacent pair of outputs"),
+        "C13" => (p_glide::c13(ctx), "enumeration of all operation sequences to a depth, all <=2-call set_time schedules over a 40-sample glide and long holds on the real glide processor with range / monotone-approach / settling oracles after every sample"),
+        "C14" => (p_glide::c14(ctx), "step responses of the real glide processor over a sample-rate x time plane against the statement's bounds, and all short set_time schedules against the dead-band rule"),
+        "C17" => (p_c17::c17(ctx), "bounded exploration of every module with extreme-argument alphabets plus complete finite input spaces, all under overflow checks, debug assertions and catch_unwind, and a watchdog for envelope termination"),
         other => {
             eprintln!("MACHINERY: unknown property id {}", other);
             return 2;
@@ -114,6 +123,8 @@ fn replay(rest: &[String]) -> i32 {
     let run = || -> Vec<String> {
         match machine {
             "lfo" => p_lfo::replay(cfg, &ops),
+            "glide" => p_glide::replay(cfg, &ops),
+            "adsr" => p_adsr::replay(cfg, &ops),
             "ribbon" => p_ribbon::replay(cfg, &ops),
             "midi" => p_midi::replay(cfg, &ops),
             "clamp" => p_clamp::replay(cfg, &ops),
